@@ -29,7 +29,7 @@ def run(res):
     if res.tier != "quick":
         cs += encgen.confusions("F", 3) + encgen.legal("F")
     from . import gen
-    encrun.standard_run(
+    rows = encrun.standard_run(
         res, PROP, lambda vh: cs + encgen.per_device(gen.read_devices(vh), res.tier != "quick"), keep=lambda r: True, what="out-of-range/operand-confusion",
         rule=("every mnemonic x every register 0..31 in each register position x values from well below to well above each field "
               "(incl. negatives, 2^15..2^63) x every index form, on both cores (vlib/encgen.py windows()); every mnemonic x every "
@@ -53,6 +53,30 @@ def run(res):
         a, b = progrun.parse_obs(obs[plain][0]), progrun.parse_obs(obs[aliased][0])
         if (a["kind"], a.get("code")) != (b["kind"], b.get("code")):
             P.fail(res, "builder::build_str", aliased, "as with the register written directly: " + obs[plain][0][:60], obs[aliased][0][:60], "alias-differs", extra=dict(plain=plain))
+
+
+    # in a program: a statement the ISA cannot encode fails the build wherever it stands - first, last, between good statements,
+    # followed by other segments (.dseg / .eseg / another .org), inside a macro - not only when it is the last thing assembled
+    import random
+    from . import c01
+    rng = random.Random(res.seed + 4)
+    illegal = [r[0] for r in rows if r[3] == "NONE" and r[0].startswith("F ") and r[2] == "ERR"
+               and not (r[0].split(" ")[2].startswith("br") or r[0].split(" ")[2] in ("rjmp", "rcall"))]      # (those depend on the address)
+    rng.shuffle(illegal)
+    progs = []
+    for cse in illegal[:600 if res.tier == "quick" else 60000]:
+        bad = c01.to_source(cse)
+        shape = rng.randrange(6)
+        tail = [[".dseg", "v: .byte 1"], [".eseg", " .db 1"], [".org 0x100", " nop"], [".dseg", ".byte 2", ".cseg", " nop", ".eseg", " .db 3"], [" nop", " ret"], []][shape]
+        head = rng.choice([[], [" nop"], [".dseg", ".byte 1", ".cseg"], ["l: nop", " rjmp l"]])
+        if rng.random() < 0.15:
+            progs.append("\n".join([".macro bad", bad, ".endm"] + head + [" bad"] + tail) + "\n")
+        else:
+            progs.append("\n".join(head + [bad] + tail) + "\n")
+    obs2 = P.correspond(res, vh, exe, progs, "programs with one unencodable statement among good segments")
+    for t in progs:
+        if not obs2[t][0].startswith("ERR"):
+            P.fail(res, "builder::build_str", t, "a failed build: one statement cannot be encoded", obs2[t][0][:80], "illegal-accepted-in-program")
 
 
 def match_known(f, entry):
